@@ -453,8 +453,213 @@ CLEANUP: dict = {}  # filled by translate(): the step orders last written
 EXTERNAL_CI: list = []
 
 
+SORT: dict = {}      # filled by translate(): {"collections": [...], "options": [...], "heading_args": "args"}
+CHARSEL: list = []   # filled by translate(): [(need_len_none, need_kind_none, regex or None, target)]
+
+
+def extract_sort_components(repo: Path):
+    """`FortranBase.sort_components`: (the names of the collections that are sorted in place - the inline list the
+    final `for` loop walks over, in source order -, the keys of SORT_KEY_FUNCTIONS in source order with whether the
+    entry is `None`).  The loop body must be the two statements `entity = getattr(self, entities, [])` and
+    `entity.sort(key=sort_key)`; anything else raises (tie broken)."""
+    tree = ast.parse((repo / "ford" / "sourceform.py").read_text())
+    fn = _method(_class_defs(tree).get("FortranBase", ast.ClassDef(name="FortranBase", body=[])), "sort_components")
+    if fn is None:
+        raise RuntimeError("sourceform.py: FortranBase.sort_components not found")
+    loops = [n for n in fn.body if isinstance(n, ast.For)]
+    if len(loops) != 1 or not isinstance(loops[0].iter, (ast.List, ast.Tuple)):
+        raise RuntimeError("sort_components: the loop over an inline list of collection names was not found once")
+    loop = loops[0]
+    if not all(isinstance(e, ast.Constant) and isinstance(e.value, str) for e in loop.iter.elts):
+        raise RuntimeError("sort_components: the list of collection names is not a list of string literals")
+    var = ast.unparse(loop.target)
+    body = [ast.unparse(x) for x in loop.body]
+    if body != [f"entity = getattr(self, {var}, [])", "entity.sort(key=sort_key)"]:
+        raise RuntimeError(f"sort_components: unexpected loop body {body!r}")
+    # nothing else in the function may sort or reorder a list
+    others = [ast.unparse(n)[:80] for n in ast.walk(fn) if isinstance(n, ast.Call) and isinstance(n.func, ast.Attribute)
+              and n.func.attr in ("sort", "reverse") and ast.unparse(n) != "entity.sort(key=sort_key)"]
+    others += [ast.unparse(n)[:80] for n in ast.walk(fn) if isinstance(n, ast.Call) and ast.unparse(n.func) in ("sorted", "reversed", "setattr")]
+    if others:
+        raise RuntimeError(f"sort_components: further reordering statements {others!r}")
+    options = None
+    for n in ast.walk(fn):
+        if isinstance(n, ast.Assign) and ast.unparse(n.targets[0]) == "SORT_KEY_FUNCTIONS" and isinstance(n.value, ast.Dict):
+            options = [(k.value, isinstance(v, ast.Constant) and v.value is None) for k, v in zip(n.value.keys, n.value.values)]
+    if not options:
+        raise RuntimeError("sort_components: SORT_KEY_FUNCTIONS not found")
+    guard = [ast.unparse(n) for n in fn.body if isinstance(n, ast.If)]
+    if guard != ["if sort_key is None:\n    return"]:
+        raise RuntimeError(f"sort_components: unexpected early return {guard!r}")
+    return [e.value for e in loop.iter.elts], options
+
+
+def extract_heading_args(repo: Path) -> str:
+    """macros.html, macro `proc_line`: the attribute of `proc` whose items, joined with ", ", stand between the
+    parentheses of a procedure heading (`({{ proc.args | join(", ") }})`)"""
+    import jinja2
+    import jinja2.nodes as N
+
+    env = jinja2.Environment(trim_blocks=True, lstrip_blocks=True)
+    tree = env.parse((repo / "ford" / "templates" / "macros.html").read_text())
+    hits = []
+    for m in tree.find_all(N.Macro):
+        if m.name != "proc_line":
+            continue
+        for f in m.find_all(N.Filter):
+            if f.name == "join" and f.args and isinstance(f.args[0], N.Const) and f.args[0].value == ", ":
+                if isinstance(f.node, N.Getattr) and isinstance(f.node.node, N.Name) and f.node.node.name == "proc":
+                    hits.append(f.node.attr)
+                else:
+                    raise RuntimeError("proc_line: the argument list is not a plain attribute of `proc` joined with ', '")
+    if len(hits) != 1:
+        raise RuntimeError(f"proc_line: expected one `proc.<attr> | join(', ')`, found {hits!r}")
+    return hits[0]
+
+
+def extract_char_selector_chain(repo: Path):
+    """`parse_type`: the loop `for arg in args:` that sorts the (at most two) parameters of a `character(...)` selector
+    into `length` and `kind`.  Each branch is read as (length must still be None, kind must still be None, the regular
+    expression that must match `arg` or None, the variable that is assigned); the branches are tried in source order
+    and the first that fires ends the iteration (`continue`, an `elif` chain, or the end of the loop body)."""
+    tree = ast.parse((repo / "ford" / "sourceform.py").read_text())
+    fn = next((n for n in tree.body if isinstance(n, ast.FunctionDef) and n.name == "parse_type"), None)
+    if fn is None:
+        raise RuntimeError("sourceform.py: parse_type not found")
+    loops = [n for n in ast.walk(fn) if isinstance(n, ast.For) and ast.unparse(n.target) == "arg" and ast.unparse(n.iter) == "args"]
+    if len(loops) != 1:
+        raise RuntimeError("parse_type: the loop `for arg in args` was not found once")
+
+    def cond(test):
+        need_len = need_kind = False
+        regex = walrus = None
+        for t in (test.values if isinstance(test, ast.BoolOp) and isinstance(test.op, ast.And) else [test]):
+            u = ast.unparse(t)
+            if u == "length is None":
+                need_len = True
+            elif u == "kind is None":
+                need_kind = True
+            elif isinstance(t, ast.NamedExpr) and re.fullmatch(r"\((\w+) := (LEN_RE|KIND_RE)\.match\(arg\)\)", u):
+                if regex:
+                    raise RuntimeError(f"parse_type: two regular expressions in one condition: {u}")
+                regex = re.fullmatch(r"\((\w+) := (LEN_RE|KIND_RE)\.match\(arg\)\)", u).group(2)
+                walrus = re.fullmatch(r"\((\w+) := (LEN_RE|KIND_RE)\.match\(arg\)\)", u).group(1)
+            else:
+                raise RuntimeError(f"parse_type: unexpected condition in the character parameter loop: {u[:90]!r}")
+        return need_len, need_kind, regex, walrus
+
+    def target(body, walrus=None):
+        """(assigned variable, the raw argument is assigned): a branch whose regular expression matched must assign a
+        value taken from that match (how - group numbers, group names - is left to the correspondence streams)"""
+        a = body[0]
+        if isinstance(a, ast.Assign) and ast.unparse(a.targets[0]) in ("length", "kind"):
+            t = ast.unparse(a.targets[0])
+            names = {n.id for n in ast.walk(a.value) if isinstance(n, ast.Name)}
+            if ast.unparse(a.value) == "arg":
+                return t, True
+            if walrus and names == {walrus}:
+                return t, False
+            raise RuntimeError(f"parse_type: unexpected value assigned in the character parameter loop: {t} = {ast.unparse(a.value)[:60]}")
+        raise RuntimeError(f"parse_type: unexpected branch body {ast.unparse(a)[:80]!r}")
+
+    rules = []
+
+    def chain(node, last):
+        """an `if` statement (with its elif / else chain); last: it is the last statement of the loop body"""
+        nl, nk, rx, wl = cond(node.test)
+        t, plain = target(node.body, wl)
+        if plain != (rx is None):
+            raise RuntimeError("parse_type: a branch assigns the raw argument after a regular expression matched (or the reverse)")
+        rules.append((nl, nk, rx, t))
+        ends = isinstance(node.body[-1], ast.Continue)
+        if node.orelse:
+            if len(node.orelse) == 1 and isinstance(node.orelse[0], ast.If):
+                chain(node.orelse[0], last)
+            else:
+                t2, plain2 = target(node.orelse)
+                if not plain2:
+                    raise RuntimeError("parse_type: unexpected else branch in the character parameter loop")
+                rules.append((False, False, None, t2))
+                if not last:
+                    raise RuntimeError("parse_type: statements follow an if/else chain in the character parameter loop")
+        elif not (ends or last):
+            raise RuntimeError("parse_type: a branch of the character parameter loop neither continues nor ends the body")
+
+    body = loops[0].body
+    for i, st in enumerate(body):
+        if not isinstance(st, ast.If):
+            raise RuntimeError(f"parse_type: unexpected statement in the character parameter loop: {ast.unparse(st)[:80]!r}")
+        chain(st, i == len(body) - 1)
+    return rules
+
+
+PROCLINE: dict = {}  # filled by translate(): {"joins": [...], "tests": [...], "data": [...], "result_ci": bool}
+
+RESULT_TEST_CI = "(proc.proctype|lower eq 'function' and proc.name|lower ne proc.retvar.name|lower)"
+
+
+def _test_str(node):
+    """canonical text of a Jinja test expression"""
+    import jinja2.nodes as N
+
+    if isinstance(node, N.Name):
+        return node.name
+    if isinstance(node, N.Const):
+        return repr(node.value)
+    if isinstance(node, N.Getattr):
+        return _test_str(node.node) + "." + node.attr
+    if isinstance(node, N.Filter):
+        if node.args or node.kwargs:
+            raise RuntimeError("proc_line: filter with arguments in a test")
+        return _test_str(node.node) + "|" + node.name
+    if isinstance(node, N.Not):
+        return "not " + _test_str(node.node)
+    if isinstance(node, N.And):
+        return "(" + _test_str(node.left) + " and " + _test_str(node.right) + ")"
+    if isinstance(node, N.Or):
+        return "(" + _test_str(node.left) + " or " + _test_str(node.right) + ")"
+    if isinstance(node, N.Compare):
+        return _test_str(node.expr) + "".join(" " + o.op + " " + _test_str(o.expr) for o in node.ops)
+    raise RuntimeError("proc_line: unexpected node in a test: " + type(node).__name__)
+
+
+def extract_proc_line(repo: Path):
+    """macros.html, macro `proc_line`: (the `join` filters as (attribute of `proc`, separator), the tests of its `if`
+    statements as canonical text, the literal text between its output expressions with None for an expression), all
+    in source order"""
+    import jinja2
+    import jinja2.nodes as N
+
+    env = jinja2.Environment(trim_blocks=True, lstrip_blocks=True)
+    tree = env.parse((repo / "ford" / "templates" / "macros.html").read_text())
+    ms = [m for m in tree.find_all(N.Macro) if m.name == "proc_line"]
+    if len(ms) != 1:
+        raise RuntimeError("macros.html: macro proc_line not found once")
+    m = ms[0]
+    joins = []
+    for f in m.find_all(N.Filter):
+        if f.name == "join":
+            if not (isinstance(f.node, N.Getattr) and isinstance(f.node.node, N.Name) and f.node.node.name == "proc"
+                    and len(f.args) == 1 and isinstance(f.args[0], N.Const) and isinstance(f.args[0].value, str)):
+                raise RuntimeError("proc_line: unexpected join filter")
+            joins.append((f.node.attr, f.args[0].value))
+    tests = [_test_str(i.test) for i in m.find_all(N.If)]
+    data = []
+
+    def walk(node):
+        if isinstance(node, N.Output):
+            for ch in node.nodes:
+                data.append(ch.data if isinstance(ch, N.TemplateData) else None)
+            return
+        for ch in node.iter_child_nodes():
+            walk(ch)
+
+    walk(m)
+    return joins, tests, data
+
+
 def lean_str(s: str) -> str:
-    return '"' + s.replace("\\", "\\\\").replace('"', '\\"') + '"'
+    return '"' + s.replace("\\", "\\\\").replace('"', '\\"').replace("\n", "\\n") + '"'
 
 
 def translate():
@@ -494,6 +699,16 @@ def translate():
         DECL_RULES_HOW.append(f"probed (AST reader: {e})")
     DECL_RULES.clear()
     DECL_RULES.extend(rules)
+    sort_colls, sort_opts = extract_sort_components(repo)
+    head_args = extract_heading_args(repo)
+    SORT.clear()
+    SORT.update(collections=list(sort_colls), options=[k for k, _ in sort_opts], heading_args=head_args)
+    pl_joins, pl_tests, pl_data = extract_proc_line(repo)
+    PROCLINE.clear()
+    PROCLINE.update(joins=[list(x) for x in pl_joins], tests=list(pl_tests), data=list(pl_data), result_ci=RESULT_TEST_CI in pl_tests)
+    csel = extract_char_selector_chain(repo)
+    CHARSEL.clear()
+    CHARSEL.extend(csel)
 
     def action(a):
         return "." + a if isinstance(a, str) else f".{a[0]} " + chars(a[1])
@@ -509,6 +724,8 @@ def translate():
         "import FordModel.Escape",
         "import FordModel.AttrStmt",
         "import FordModel.DeclLine",
+        "import FordModel.SortComp",
+        "import FordModel.CharSel",
         "namespace Ford.Generated.C18",
         "open Ford.Html",
         "",
@@ -527,6 +744,28 @@ def translate():
         "/-- the if-chain of the attribute loop of `line_to_variables` (ford/sourceform.py) in source order: the attribute",
         "    (lower-cased, blanks removed) and the field it is turned into; every other attribute is kept as written -/",
         "def declAttrRules : Ford.DeclLine.Rules := [" + ", ".join(f"({chars(k)}, {action(a)})" for k, a in rules) + "]",
+        "",
+        "/-- `FortranBase.sort_components` (ford/sourceform.py): the collections that are sorted in place, in source order;",
+        "    the keys of SORT_KEY_FUNCTIONS (with `true` for the entry that is `None`: nothing is sorted) -/",
+        "def sortedCollections : List (List Char) := [" + ", ".join(chars(k) for k in sort_colls) + "]",
+        "def sortOptions : List (List Char × Bool) := [" + ", ".join(f"({chars(k)}, {'true' if n else 'false'})" for k, n in sort_opts) + "]",
+        "",
+        "/-- macros.html, `proc_line`: the collection whose items stand between the parentheses of a procedure heading -/",
+        "def headingArgsCollection : List Char := " + chars(head_args),
+        "",
+        "/-- `parse_type` (ford/sourceform.py): the branches of the loop over the parameters of a `character(...)` selector,",
+        "    in source order: length must still be None, kind must still be None, regular expression, assigned variable -/",
+        "def charSelRules : Ford.CharSel.Rules := [" + ", ".join(
+            f"⟨{'true' if nl else 'false'}, {'true' if nk else 'false'}, .{ {None: 'none', 'LEN_RE': 'len', 'KIND_RE': 'kind'}[rx] }, .{t}⟩"
+            for nl, nk, rx, t in csel) + "]",
+        "",
+        "/-- macros.html, `proc_line`: the `join` filters (attribute of `proc`, separator), the tests of the `if` statements and the",
+        "    literal text between the output expressions (`none` = an output expression), all in source order; whether the test of",
+        "    the RESULT clause compares the two names lower-cased -/",
+        "def procLineJoins : List (String × String) := [" + ", ".join(f"({lean_str(a)}, {lean_str(b)})" for a, b in pl_joins) + "]",
+        "def procLineTests : List String := [" + ", ".join(lean_str(x) for x in pl_tests) + "]",
+        "def procLineData : List (Option String) := [" + ", ".join("none" if x is None else "some " + lean_str(x) for x in pl_data) + "]",
+        f"def procLineResultCI : Bool := {'true' if RESULT_TEST_CI in pl_tests else 'false'}",
         "",
         f"def autoescape : Bool := {'true' if auto else 'false'}",
         "",
